@@ -20,8 +20,9 @@ package main
 //	        RMDIR    the user's whole cache directory is removed
 //	        RESTART  the server is closed and started again on the same directories
 //	        COPY / MOVE   UID COPY / UID MOVE into the other mailbox; the following steps work there
-//	        REAPPEND the last BODY[] answer is appended to a third mailbox (gluon recognises its own id line and
-//	                 adds the existing message); the following steps work there
+//	        REAPPEND the last BODY[] answer of the message's CURRENT internal id (answers fetched before a connector
+//	                 update re-created the message are not used: their id line is superseded) is appended to a third
+//	                 mailbox (gluon recognises its own id line and adds the existing message); the following steps work there
 //	        UPDATE / UPDATESAME   (way CONN) the connector sends MessageUpdated with <lit2> / with the same literal
 //
 // Items: RFC822.SIZE, BODY[], RFC822, RFC822.HEADER, RFC822.TEXT, BODY[HEADER], BODY[TEXT], HEADER.FIELDS /
@@ -730,6 +731,7 @@ func c13wIsFetch(s string) bool {
 // run one case; the returned error is a harness problem, not a verdict
 func (w *c13wRunner) run(cs c13wCase) (*c13wObs, error) {
 	w.nCase++
+	w.lastNo = ""
 	o := &c13wObs{status: "ok", index: map[string]int{}, ids: []string{"-", "-"}}
 	a, err := w.sessA("c13a")
 	if err != nil {
@@ -965,6 +967,10 @@ func (w *c13wRunner) run(cs c13wCase) (*c13wObs, error) {
 				curID = added[0]
 				o.ids[1] = added[0]
 				pendingDrop = false
+				// the message was re-created under a new internal id: a BODY[] answer fetched before carries the
+				// superseded id line, which legitimately names no live message any more (REAPPEND of it would be a
+				// new message); only an answer fetched from here on may be re-appended
+				lastBody = nil
 				if uid, err = c13wMaxUID(c); err != nil {
 					return nil, err
 				}
